@@ -1,0 +1,38 @@
+//go:build verif
+
+// Copyright 2026 The Scriggo Authors. All rights reserved.
+// Use of this source code is governed by a BSD-style
+// license that can be found in the LICENSE file.
+
+// Package c02 is a verification bridge (build tag "verif") that exposes the
+// unexported integer constant operations of internal/compiler (int64Const,
+// intConst) to the external correspondence harness of property C02. It adds
+// no behaviour.
+package c02
+
+import (
+	"reflect"
+
+	"github.com/open2b/scriggo/internal/compiler"
+)
+
+// Binary executes c1.binaryOp(op, c2); constants are (representation,
+// decimal) pairs with representation "small" (int64Const) or "big" (intConst).
+func Binary(op, repr1, dec1, repr2, dec2 string) string {
+	return compiler.VerifC02Binary(op, repr1, dec1, repr2, dec2)
+}
+
+// Unary executes c.unaryOp(op, typ) for a type of the given kind.
+func Unary(op string, kind reflect.Kind, repr, dec string) string {
+	return compiler.VerifC02Unary(op, kind, repr, dec)
+}
+
+// RepresentedBy executes c.representedBy(typ) for a type of the given kind.
+func RepresentedBy(kind reflect.Kind, repr, dec string) string {
+	return compiler.VerifC02RepresentedBy(kind, repr, dec)
+}
+
+// ShiftConstError executes shiftConstError.
+func ShiftConstError(left bool, repr, dec string) string {
+	return compiler.VerifC02ShiftConstError(left, repr, dec)
+}
